@@ -30,16 +30,30 @@ Inductive fv := Fin (q : Q) | PInf | NInf | NaN.
 
 Definition rexact (q : Q) : fv := Fin q.
 
+(* m * 2^e as a reduced fraction (m odd or e >= 0 after stripping) *)
+Fixpoint strip2 (m : positive) (k : N) : positive * N :=
+  match m with
+  | xO m' => if (k =? 0)%N then (m, k) else strip2 m' (N.pred k)
+  | _ => (m, k)
+  end.
+Definition dyadic (m e : Z) : fv :=
+  if 0 <=? e then Fin (Z.shiftl m e # 1) else
+  match m with
+  | Z0 => Fin 0
+  | Zpos p => let (p', k) := strip2 p (Z.to_N (- e)) in Fin (Zpos p' # Pos.shiftl 1 k)
+  | Zneg p => let (p', k) := strip2 p (Z.to_N (- e)) in Fin (Zneg p' # Pos.shiftl 1 k)
+  end.
+
 Definition rnd64 (q : Q) : fv :=
   let n := Z.abs (Qnum q) in
   if n =? 0 then Fin 0 else
   let d := Zpos (Qden q) in
   let e0 := Z.log2 n - Z.log2 d in
-  let ge := if 0 <=? e0 then d * 2 ^ e0 <=? n else d <=? n * 2 ^ (- e0) in
+  let ge := if 0 <=? e0 then Z.shiftl d e0 <=? n else d <=? Z.shiftl n (- e0) in
   let e1 := if ge then e0 else e0 - 1 in            (* 2^e1 <= |q| < 2^(e1+1) *)
   let ex := Z.max (e1 - 52) (-1074) in              (* exponent of the last place *)
-  let num := if 0 <=? ex then n else n * 2 ^ (- ex) in
-  let den := if 0 <=? ex then d * 2 ^ ex else d in
+  let num := if 0 <=? ex then n else Z.shiftl n (- ex) in
+  let den := if 0 <=? ex then Z.shiftl d ex else d in
   let fl := num / den in
   let r := num mod den in
   let m := match 2 * r ?= den with
@@ -47,12 +61,9 @@ Definition rnd64 (q : Q) : fv :=
            | Eq => if Z.even fl then fl else fl + 1 end in
   if m =? 0 then Fin 0 else
   if 1024 <=? Z.log2 m + ex then (if 0 <? Qnum q then PInf else NInf) else
-  let s := if 0 <? Qnum q then m else - m in
-  Fin (Qred (if 0 <=? ex then (s * 2 ^ ex) # 1 else s # (Z.to_pos (2 ^ (- ex))))).
+  dyadic (if 0 <? Qnum q then m else - m) ex.
 
 Definition of_N (n : N) : fv := Fin (Z.of_N n # 1).
-Definition dyadic (m e : Z) : fv :=
-  Fin (Qred (if 0 <=? e then (m * 2 ^ e) # 1 else m # (Z.to_pos (2 ^ (- e))))).
 
 Definition qsgn (q : Q) : Z := Z.sgn (Qnum q).
 Definition fsgn (x : fv) : Z := match x with Fin q => qsgn q | PInf => 1 | NInf => -1 | NaN => 0 end.
